@@ -251,6 +251,10 @@ def handling_sig(w, lf, _seen=None):
         name = re.sub(r"^RT::AsyncRead::poll_read$", "std::io::Read::read", name)
         name = re.sub(r"^RT::AsyncWrite::poll_(write|flush|close)$", r"std::io::Write::\1", name)
         name = re.sub(r"^(std::iter::Iterator|RT::StreamExt)::next$", "next", name)
+        if name == "next":
+            # how the *iteration protocol* is spelled (`for` / `while let Some(..) = next()` / `try_for_each(|item| ..)`) is not
+            # an observable difference; what happens to each item's error is compared through the calls made on it
+            continue
         name = re.sub(r"^RT::task::spawn_blocking$", "spawn_blocking", name)
         name = re.sub(r"^std::io::Write::(write_fmt|write_all_vectored)$", "std::io::Write::write_all", name)
         name = re.sub(r"^std::fs::DirBuilder::create$", "std::fs::create_dir_all", name)     # (recursive is checked by the effect flags)
